@@ -36,12 +36,13 @@ out.append('Each was produced by a fresh sub-agent that saw only the text of one
            'specific to manifest, and keeps the pinned tests green. Kept only after confirming here: `demo.py` exits 0 on a '
            'clean copy and 1 with `patch.diff`; the 241 baseline tests still pass with the patch (`tests.txt`); then the '
            'checks were run (`meta.json` has the details). Suffix -1/-2: first round (two changes per property); -3: second '
-           'round, run after the first round had been used to strengthen the checks, with the first-round ideas excluded; -4: third round.\n')
+           'round, run after the first round had been used to strengthen the checks, with the first-round ideas excluded; -4: third round; -5: fourth round.\n')
 out.append('| id | change (agent\'s summary) | needs | caught by | note |')
 out.append('|---|---|---|---|---|')
 tot = first = 0
 r2tot = r2first = 0
 r3tot = r3first = 0
+r4tot = r4first = 0
 for d in sorted(glob.glob(os.path.join(V, 'seeded', 'C*-*'))):
     mp = os.path.join(d, 'meta.json')
     if not os.path.exists(mp):
@@ -58,6 +59,9 @@ for d in sorted(glob.glob(os.path.join(V, 'seeded', 'C*-*'))):
     if name.endswith('-4'):
         r3tot += 1
         r3first += not missed_first
+    if name.endswith('-5'):
+        r4tot += 1
+        r4first += not missed_first
     out.append('| %s | %s | %s | %s | %s |' % (name, m.get('summary', '')[:230].replace('|', '/').replace('\n', ' '),
                                           m.get('needs_to_manifest', '')[:160].replace('|', '/').replace('\n', ' '),
                                           ', '.join(m.get('caught_by', [])) or '—', note.replace('|', '/')))
